@@ -279,3 +279,34 @@ pub fn call_populate<P: FnOnce(&mut std::fs::File, Option<std::fs::File>) -> ::s
 {
     unimplemented!()
 }
+
+// ---- the one documented panic -----------------------------------------------------------------------------
+/// T2: `<flush result>.expect("auto_sync failed, and failure semantics are unclear for fsync")` in Cache::maybe_sync_path
+/// is the crate's one documented panic (a failed flush of a caller-supplied path).  The `.expect(<that literal>)` is
+/// rebound to this method, which returns only if the result is Ok (otherwise the process panics, as documented).
+pub trait DocumentedPanic<T>: Sized {
+    spec fn dp_ok(&self) -> bool;
+
+    spec fn dp_val(&self) -> T;
+
+    fn expect_or_documented_panic(self, msg: &str) -> (r: T)
+        ensures
+            self.dp_ok(),
+            r == self.dp_val(),
+    ;
+}
+
+impl<T> DocumentedPanic<T> for ::std::io::Result<T> {
+    open spec fn dp_ok(&self) -> bool {
+        self is Ok
+    }
+
+    open spec fn dp_val(&self) -> T {
+        self->Ok_0
+    }
+
+    #[verifier::external_body]
+    fn expect_or_documented_panic(self, msg: &str) -> (r: T) {
+        unimplemented!()
+    }
+}
